@@ -75,3 +75,10 @@ Definition std_extern (f : list name) (rest : bytes) (u : ustate) : (value * nat
 
 Definition std_hooks : hooks ustate :=
   {| h_check := std_check; h_check_char := std_check_char; h_extern := std_extern |}.
+
+(* the same library as pure oracles (for grammars that use no stateful hook) *)
+From PegV Require Import Spec.
+Definition std_shooks : shooks :=
+  {| sh_check := fun f v => fst (std_check f v u_init);
+     sh_check_char := std_check_char;
+     sh_extern := fun f bs => fst (std_extern f bs u_init) |}.
